@@ -632,8 +632,188 @@ def check_records(ctx, recs, tag, stats):
     return nviol
 
 
+def fn_cases(ctx):
+    r = ctx.rng
+    cases = []
+    quick = ctx.tier == "quick"
+    # exhaustive: every chunk shape of every extent up to the bound, every element position, element sizes 1 and 4
+    bound = (3, 3, 2) if quick else (4, 4, 3)
+    for dims in itertools.product(*[range(1, m + 1) for m in bound]):
+        for cl in itertools.product(*[range(1, d + 2) for d in dims]):
+            n = prod(dims)
+            for nt in ((1, 4) if not quick else (2,)):
+                for e in range(n):
+                    rem = r.choice([1, 2, n - e, n])
+                    cases.append("P %d %d %s %s %d %d %d" % (nt, len(dims), " ".join(map(str, dims)), " ".join(map(str, cl)),
+                                                          e * nt, rem * nt + 8, 8))
+                for og in itertools.product(*[range((d + c - 1) // c) for d, c in zip(dims, cl)]):
+                    cases.append("C %d %d %s %s %s" % (nt, len(dims), " ".join(map(str, dims)), " ".join(map(str, cl)),
+                                                     " ".join(map(str, og))))
+    for _ in range(1500 if quick else 20000):
+        nd = r.choice([1, 2, 2, 3, 3, 4, 5])
+        dims = [r.randrange(1, 14) for _ in range(nd)]
+        cl = [r.choice([1, d, r.randrange(1, d + 1), d + r.randrange(0, 3)]) for d in dims]
+        nt = r.choice([1, 2, 4, 8, 3])
+        n = prod(dims)
+        e = r.choice([0, n - 1, r.randrange(n)])
+        ln = r.randrange(1, n - e + 1) * nt
+        dn = r.randrange(0, ln)
+        cases.append("P %d %d %s %s %d %d %d" % (nt, nd, " ".join(map(str, dims)), " ".join(map(str, cl)), e * nt, ln, dn))
+        og = [r.randrange((d + c - 1) // c) for d, c in zip(dims, cl)]
+        cases.append("C %d %d %s %s %s" % (nt, nd, " ".join(map(str, dims)), " ".join(map(str, cl)), " ".join(map(str, og))))
+    return cases
+
+
+def fn_oracle(line):
+    """specification-level expectation for a P case: chunk coordinates / in-chunk coordinates of the element, from the
+    definition of chunking (independent of the code's loops)"""
+    t = line.split()
+    nt, nd = int(t[1]), int(t[2])
+    d = list(map(int, t[3:3 + nd]))
+    c = list(map(int, t[3 + nd:3 + 2 * nd]))
+    pos, ln, dn = map(int, t[3 + 2 * nd:])
+    e = pos // nt
+    x = []
+    for k in reversed(range(nd)):
+        x.append(e % d[k])
+        e //= d[k]
+    x.reverse()
+    nch = [(a + b - 1) // b for a, b in zip(d, c)]
+    cn = seek = 0
+    for k in range(nd):
+        cn = cn * nch[k] + x[k] // c[k]
+        seek = seek * c[k] + x[k] % c[k]
+    rowleft = min(c[-1] - x[-1] % c[-1], d[-1] - x[-1])
+    piece = min(ln - dn, rowleft * nt)
+    return "%d %d %d" % (cn, seek * nt, piece)
+
+
+def mc_cases(ctx):
+    r = ctx.rng
+    cases = []
+    for _ in range(400 if ctx.tier == "quick" else 6000):
+        np_ = r.randrange(1, 9)
+        maxc = r.choice([1, 1, 2, 3, np_, np_ + 1])
+        ps = r.randrange(1, 4)
+        ops = []
+        for _ in range(r.randrange(1, 30)):
+            k = r.choice([0, 0, 1, 1, 1, 2, 3]) if r.random() < 0.9 else 2
+            pg = r.randrange(1, np_ + 1) if k != 3 else r.randrange(1, np_ + 3)
+            if k in (0, 1) and r.random() < 0.03:
+                pg = np_ + 1          # non-existent page: must be refused
+            ops.append((k, pg, r.randrange(-99, 100)))
+        ops.append((2, 0, 0))
+        cases.append((maxc, np_, ps, r.randrange(-9, 10), ops))
+    return cases
+
+
+def mc_oracle(case):
+    """finite-map specification: what every get must see and what the backing store must hold after the final sync"""
+    maxc, np_, ps, fill, ops = case
+    pages = {k: [fill] * ps for k in range(1, np_ + 1)}
+    seen = []
+    for k, pg, v in ops:
+        if k in (0, 1):
+            if pg > np_:
+                seen.append([-1])
+                continue
+            seen.append(list(pages[pg]))
+            if k == 1:
+                pages[pg] = [v] + pages[pg][:-1]
+        else:
+            seen.append(None)
+    return seen, [pages[k] for k in range(1, np_ + 1)]
+
+
+def parse_brackets(line):
+    head, _, tail = line.partition("S ")
+    grp = lambda s: [list(map(int, g.split())) for g in s.replace("]", "").split("[")[1:]]
+    return grp(head), grp(tail)
+
+
 def run_function_level(ctx):
-    pass
+    exe = ctx.harness("drive_chunkfn", ["drive_chunkfn.c"])
+    exm = ctx.harness("drive_mcache", ["drive_mcache.c"])
+    mod = ctx.model("layout_model", ["layout_main.ml"], ["layout_model"])
+    wd = os.path.join(ctx.bdir, "harness", "c04-work-%d" % os.getpid())
+    os.makedirs(wd, exist_ok=True)
+    # ---- chunk arithmetic: R (static functions of hchunks.c) vs M (ChunkModel.v) vs the definition of chunking
+    cases = fn_cases(ctx)
+    p = os.path.join(wd, "fn.in")
+    open(p, "w").write("\n".join(cases) + "\n")
+    rc, out = vc.sh([exe, p, wd], timeout=1500, env=dict(vc.HARNESS_ENV))
+    R = out.splitlines()
+    rcm, M = vc.run_lines(mod, p, timeout=1500, args=("fn",))
+    st = {"cases": len(cases), "P": 0, "C": 0, "last_chunk_partial": 0, "piece_cut_by_row": 0, "harness_rc": rc}
+    if rcm != 0 or len(M) != len(cases):
+        raise vc.BuildError("model driver (fn) failed rc=%d lines=%d/%d" % (rcm, len(M), len(cases)))
+    for i, c in enumerate(cases):
+        r = R[i] if i < len(R) else "crash"
+        st[c[0]] += 1
+        if c[0] == "P":
+            exp = fn_oracle(c)
+            if " ".join(r.split()[:3]) != exp:
+                ctx.violation("hchunks.c arithmetic differs from the definition of chunking: case '%s' library '%s' expected '%s ...'" % (c, r, exp),
+                              "# C04 function-level case (harness/drive_chunkfn.c); expected = definition of chunking\n# fn: " + c +
+                              "\n# library:  " + r + "\n# expected: " + exp + "\n# model:    " + M[i], found=True, suffix="fn")
+                break
+            t = c.split()
+            nd = int(t[2])
+            if int(t[2 + nd]) % int(t[2 + 2 * nd]):
+                st["last_chunk_partial"] += 1
+            if int(r.split()[2]) < int(t[-2]) - int(t[-1]):
+                st["piece_cut_by_row"] += 1
+        if r != M[i]:
+            ctx.violation("correspondence hchunks.c ~ ChunkModel.v broken on '%s': library '%s' model '%s'" % (c, r, M[i]),
+                          "# C04 function-level case: R differs from M (no R-vs-S failure on this case)\n# fn: " + c + "\n# library: " + r +
+                          "\n# model:   " + M[i], found=False, suffix="fn")
+            break
+        ctx.case(("fn", c), True)
+    ctx.corr("hchunks-arithmetic~ChunkModel", **st)
+    # ---- LRU cache: R (mcache.c) vs M (MCacheModel.v) vs finite-map specification
+    mcs = mc_cases(ctx)
+    p = os.path.join(wd, "mc.in")
+    open(p, "w").write("\n".join("%d %d %d %d %d %s" % (c[0], c[1], c[2], c[3], len(c[4]), " ".join("%d %d %d" % o for o in c[4]))
+                                 for c in mcs) + "\n")
+    rc, out = vc.sh([exm, p], timeout=1500, env=dict(vc.HARNESS_ENV))
+    R = out.splitlines()
+    rcm, M = vc.run_lines(mod, p, timeout=1500, args=("mc",))
+    st = {"cases": len(mcs), "ops": 0, "gets": 0, "dirty_puts": 0, "syncs": 0, "cache1": 0, "refused_gets": 0, "harness_rc": rc}
+    if rcm != 0 or len(M) != len(mcs):
+        raise vc.BuildError("model driver (mc) failed rc=%d lines=%d/%d" % (rcm, len(M), len(mcs)))
+    for i, c in enumerate(mcs):
+        r = R[i] if i < len(R) else "crash"
+        line = "%d %d %d %d %d %s" % (c[0], c[1], c[2], c[3], len(c[4]), " ".join("%d %d %d" % o for o in c[4]))
+        st["ops"] += len(c[4])
+        st["gets"] += sum(1 for o in c[4] if o[0] in (0, 1))
+        st["dirty_puts"] += sum(1 for o in c[4] if o[0] == 1)
+        st["syncs"] += sum(1 for o in c[4] if o[0] == 2)
+        st["cache1"] += c[0] == 1
+        seen, final = mc_oracle(c)
+        st["refused_gets"] += sum(1 for x in seen if x == [-1])
+        try:
+            ro, rf = parse_brackets(r)
+        except ValueError:
+            ro, rf = [], []
+        bad = len(ro) != len(seen) or rf != final or any(s_ is not None and a != s_ for a, s_ in zip(ro, seen))
+        if bad:
+            ctx.violation("mcache.c differs from the finite-map specification on case '%s'" % line[:200],
+                          "# C04 function-level case (harness/drive_mcache.c); spec = pages seen by each get, backing store after the final sync\n# mc: " +
+                          line + "\n# library: " + r + "\n# spec seen: " + str(seen) + "\n# spec final: " + str(final) + "\n# model:   " + M[i],
+                          found=True, suffix="mc")
+            break
+        if r.strip() != M[i].strip():
+            ctx.violation("correspondence mcache.c ~ MCacheModel.v broken on '%s'" % line[:200],
+                          "# C04 function-level case: R differs from M (R agrees with the map specification)\n# mc: " + line + "\n# library: " + r +
+                          "\n# model:   " + M[i], found=False, suffix="mc")
+            break
+        ctx.case(("mc", line), True)
+    ctx.corr("mcache~MCacheModel~map", **st)
+    for f in os.listdir(wd):
+        try:
+            os.unlink(os.path.join(wd, f))
+        except OSError:
+            pass
 
 
 def load_corpus():
@@ -661,7 +841,29 @@ def run(ctx):
 
 
 def replay(ctx, path):
-    recs = parse_records(open(path).read())
+    txt = open(path).read()
+    for kind, hname, mode in (("# fn: ", "drive_chunkfn", "fn"), ("# mc: ", "drive_mcache", "mc")):
+        lines = [l[len(kind):] for l in txt.splitlines() if l.startswith(kind)]
+        if lines:
+            exe = ctx.harness(hname, [hname + ".c"])
+            mod = ctx.model("layout_model", ["layout_main.ml"], ["layout_model"])
+            wd = os.path.join(ctx.bdir, "harness", "c04-work-%d" % os.getpid())
+            os.makedirs(wd, exist_ok=True)
+            p = os.path.join(wd, "replay.in")
+            open(p, "w").write("\n".join(lines) + "\n")
+            rc, out = vc.sh([exe, p, wd] if mode == "fn" else [exe, p], timeout=300, env=dict(vc.HARNESS_ENV))
+            rcm, M = vc.run_lines(mod, p, args=(mode,))
+            bad = 0
+            for i, l in enumerate(lines):
+                r = out.splitlines()[i] if i < len(out.splitlines()) else "crash"
+                print("case: %s\n  R: %s\n  M: %s" % (l, r, M[i] if i < len(M) else "-"))
+                if mode == "fn" and l.startswith("P"):
+                    print("  S: %s ..." % fn_oracle(l))
+                    bad |= " ".join(r.split()[:3]) != fn_oracle(l)
+                bad |= r.strip() != (M[i].strip() if i < len(M) else "")
+            os.unlink(p)
+            return 1 if bad else 0
+    recs = parse_records(txt)
     rc, R, rb, sb = run_harness(ctx, recs, "replay")
     bad = 0
     for i, rec in enumerate(recs):
